@@ -13,7 +13,7 @@ from .common import judge_flags, run_cases
 PROP = "C03"
 B = (0.0, 1.0, 2.0, 3.0)
 VALS = (-1.0, 0.0, 0.5, 1.0, 1.5, 2.0, 2.5, 3.0, 4.0, alpha.NAN)
-NMAX = {"quick": 2, "thorough": 3}
+NMAX = {"quick": 2, "thorough": 4}
 BUDGET = {"quick": 600, "thorough": 3000}
 PRODUCT = [list(VALS), list(reversed(VALS)), list(VALS[3:] + VALS[:3])]
 
@@ -32,7 +32,7 @@ META = dict(
          "function, judged per point by the scalar reference. non-trivial = reference demands SUSPECT/FAIL/MISSING "
          "or ValueError",
     bounds={"quick": {"max_len": 2, "values": list(VALS), "bounds": list(B)},
-            "thorough": {"max_len": 3, "values": list(VALS), "bounds": list(B)}},
+            "thorough": {"max_len": 4, "values": list(VALS), "bounds": list(B)}},
     not_judged=["integer-dtype data with a None bound", "malformed spans (length != 2)"],
     assumptions=["values are region representatives: one below, on, between and above every bound"],
 )
